@@ -2,7 +2,7 @@
 import json
 
 from .. import x as X
-from .base import gen_sid
+from .base import gen_sid, NAME_POOL
 from .storebase import StoreProfile, gen_search
 
 POOL_MAX = 24
@@ -11,6 +11,7 @@ POOL_MAX = 24
 class ValuesProfile(StoreProfile):
     name = "values"
     prop = "C14"
+    names = NAME_POOL + ["old king", "a b c", " lead"]     # and free-form values with blanks (legal: '[^/]*')
     rule = ("one case = one public operation (or mutation attempt on a returned container) on a Sid held by the client across a "
             "seeded history, followed by the invariant pass over the whole pool (string, type, fields, uri, hash, str, repr, len, "
             "bool of every held Sid equal to its snapshot at creation; a re-built same-string Sid equal to the first one; "
